@@ -350,8 +350,12 @@ def gramSchmidOrth( A, alignVec=None ):
         normCurVec = np.linalg.norm( curVec )
         normAlignVec = np.linalg.norm( alignVec )
         # ( only a numerically exact multiple counts: a nearly parallel but independent
-        #   column is handled by the orthogonalisation itself )
-        if abs( np.dot( curVec, alignVec ) ) / ( normCurVec * normAlignVec ) >= 1.0 - 1e-12:
+        #   column is handled by the orthogonalisation itself.  The test is on the sine of 
+        #   the angle, i.e. on what is left of curVec after removing its component along 
+        #   alignVec: the cosine cannot tell an angle of 1e-6 from 0 )
+        unitAlignVec = alignVec / normAlignVec
+        restVec = curVec - np.dot( curVec, unitAlignVec ) * unitAlignVec
+        if np.linalg.norm( restVec ) <= 1e-12 * normCurVec:
             # alignVec replaces the i-th column: keep the other columns after it
             B[ :, 1: ] = np.delete( A, i, axis=1 )
     
